@@ -221,8 +221,13 @@ where
     let mut primary_error: Option<S::Error> = None;
     let mut failed_attempts: usize = 0;
 
-    // Get delay for first hedge
-    let first_delay = config.delay.get_delay(1);
+    // Get delay for first hedge - only if there is one: with a single attempt the user's
+    // delay function must not be asked about a hedge that does not exist
+    let first_delay = if max_attempts > 1 {
+        config.delay.get_delay(1)
+    } else {
+        None
+    };
 
     // If we have more attempts and there's a delay, set up hedge timing
     // Parallel mode only when the delay source is constantly zero; a dynamic delay function
